@@ -13,7 +13,8 @@ LEVEL_TEXT = ("static: decides, for every allocation site and every CFG path inc
               "that nothing the function owns is dropped or released twice on any exit, that consuming functions consume on every path, that the "
               "container growth routines allocate before they mutate and restore their size on failure, that requests are still disposed exactly once "
               "on paths through failing allocations, and that all allocation goes through the replaceable allocator. Does not decide 'channel remains "
-              "usable' as a behavioural whole; objects held only in channel/server/connection fields are out of scope of the leak rule.")
+              "usable' as a behavioural whole; objects held only in channel/server/connection fields are out of scope of the leak rule."
+              " Also decides (REQUEUE) that a request taken off its connection and timer is re-sent, parked or completed on every path and that every parked request is re-sent, (COUNTED) that counted string arrays are covered by their count at every exit, (ALLOCOUT/REGISTERED) see DESIGN §11.2.")
 LEVEL_NOTE = ("trusts clang CFG + extractor; ownership transfer through struct fields is inferred from which fields the library ever releases; five frozen "
               "exemptions (take-back idioms, correlated count/pointer) are listed with reasons in tool/py/ownrules.py")
 DESIGN_REF = "DESIGN.md §6/C14"
